@@ -146,25 +146,26 @@ class StdioClient:
         try:
             assert self.process and self.process.stdout
 
-            buffer = ""
+            buffer = b""
             logger.debug("stdout_reader started")
 
             async for chunk in self.process.stdout:
-                # Handle both bytes and string chunks
-                if isinstance(chunk, bytes):
-                    buffer += chunk.decode("utf-8")
-                else:
-                    buffer += chunk
+                # Handle both bytes and string chunks.  Buffer raw bytes: a read may
+                # end inside a multi-byte UTF-8 character, so decoding has to wait
+                # until a complete line is available.
+                if isinstance(chunk, str):
+                    chunk = chunk.encode("utf-8")
+                buffer += chunk
 
                 # Split on newlines
-                lines = buffer.split("\n")
+                lines = buffer.split(b"\n")
                 buffer = lines[-1]
 
-                for line in lines[:-1]:
-                    line = line.strip()
-                    if not line:
-                        continue
+                for raw_line in lines[:-1]:
                     try:
+                        line = raw_line.decode("utf-8").strip()
+                        if not line:
+                            continue
                         data = json.loads(line)
                         await self._process_message_data(data)
 
